@@ -12,6 +12,10 @@ The decision rules (`decision`, `needsTable`, which cleanup deletes) are read fr
 PARTIAL, by nature and by finding:
 * that Go's collector runs a cleanup only for an unreachable object (and when) is trusted; the harness forces
   collections at the trace's `gc` points and compares which cleanups ran with the model's unreachable set;
+* WAL files are files with names (`Wal`: directory, number, version): a checkpoint that seals a WAL under a name that
+  is already taken overwrites that file (`clobber`) — an overwrite is a deletion of the older content — and
+  `Checkpoint.Destroy` deletes by name (`rmWals`). The global theorems therefore say: no file — table or WAL —
+  referenced by a retained checkpoint document is deleted or overwritten.
 * the global theorem is proved for one operator lineage: one running instance at a time over any number of crash +
   reopen generations (`no_needed_file_deleted_lineage_partial`; `no_needed_file_deleted_partial` is the one-generation
   case, which also lets a crashed instance's leftover garbage be collected).
@@ -82,14 +86,14 @@ theorem retained_checkpoint_listed_lineage_partial (range : KGRange) (nbrs : Lis
 /-- three generations: the second one compacts the restored table away, drops the restored checkpoint and its
 collection deletes the first generation's table file; the third restores from the second -/
 def lineageTrace : List Act :=
-  [.flush 0 ⟨"a0", 0, 7⟩, .ckpt 0 1 "w0", .flush 0 ⟨"a1", 0, 3⟩, .crash 0,
-   .openFrom ⟨0, 8⟩ 1 [] [0] 1, .flush 1 ⟨"b0", 0, 7⟩, .compact 1 ["a0", "b0"] [⟨"b1", 0, 7⟩], .collect 1 "b0" [],
-   .ckpt 1 2 "w1", .jobDrop 1, .retain 1 [2], .collect 1 "a0" [], .crash 1,
-   .openFrom ⟨0, 8⟩ 2 [] [1] 2, .flush 2 ⟨"c0", 4, 5⟩, .ckpt 2 3 "w2"]
+  [.flush 0 ⟨"a0", 0, 7⟩, .ckpt 0 1 ⟨0, 0, 0⟩, .flush 0 ⟨"a1", 0, 3⟩, .crash 0,
+   .openFrom ⟨0, 8⟩ 1 [] [0] 1 1, .flush 1 ⟨"b0", 0, 7⟩, .compact 1 ["a0", "b0"] [⟨"b1", 0, 7⟩], .collect 1 "b0" [],
+   .ckpt 1 2 ⟨1, 1, 0⟩, .jobDrop 1, .retain 1 [2], .collect 1 "a0" [], .crash 1,
+   .openFrom ⟨0, 8⟩ 2 [] [1] 2 2, .flush 2 ⟨"c0", 4, 5⟩, .ckpt 2 3 ⟨2, 2, 0⟩]
 
 example : (runL (init1 ⟨0, 8⟩ []) lineageTrace).map (fun s => (s.files, needed s)) =
-    some ([.wal "w2", .sst "c0", .wal "w1", .sst "b1", .sst "a1"],
-          [.sst "c0", .sst "b1", .sst "c0", .sst "b1", .wal "w2", .sst "b1", .wal "w1"]) := by decide
+    some ([.wal ⟨2, 2, 0⟩, .sst "c0", .wal ⟨1, 1, 0⟩, .sst "b1", .sst "a1"],
+          [.sst "c0", .sst "b1", .sst "c0", .sst "b1", .wal ⟨2, 2, 0⟩, .sst "b1", .wal ⟨1, 1, 0⟩]) := by decide
 
 /-- while the job retains checkpoint 1 the second generation cannot collect the restored table -/
 example : runL (init1 ⟨0, 8⟩ []) (lineageTrace.take 9 ++ [.collect 1 "a0" []]) = none := by decide
@@ -100,12 +104,14 @@ example : runL (init1 ⟨0, 8⟩ []) (lineageTrace.take 9 ++ [.collect 1 "a0" []
 theorem keeps_iff (ids : List Nat) (c : Ckpt) : keeps ids c = true ↔ c.id ∈ ids ∨ ids.foldl max 0 < c.id := by
   simp [keeps]
 
-/-- `UpdateRetainedCheckpoints(ids)`: afterwards exactly the WAL files of the dropped checkpoints are gone — no
-table file, no WAL of a kept checkpoint unless a dropped checkpoint references the same file — the checkpoint list
+/-- `UpdateRetainedCheckpoints(ids)`: afterwards exactly the files that have the NAME of a WAL of a dropped checkpoint
+are gone (`Checkpoint.Destroy` deletes by name) — no table file, no WAL of a kept checkpoint unless a dropped
+checkpoint references a file of the same name — the checkpoint list
 (= the saved document) holds exactly the kept checkpoints, and the job's view is untouched. Any number of instances. -/
 theorem wal_gc (s s' : State) (i : Nat) (ids : List Nat) (x : Inst) (hx : s.insts[i]? = some x)
     (h : step s (.retain i ids) = some s') :
-    (∀ f, f ∈ s'.files ↔ f ∈ s.files ∧ ¬ ∃ c ∈ x.ckpts, keeps ids c = false ∧ ∃ w ∈ c.wals, f = .wal w) ∧
+    (∀ f, f ∈ s'.files ↔ f ∈ s.files ∧
+      ¬ ∃ c ∈ x.ckpts, keeps ids c = false ∧ ∃ w ∈ c.wals, ∃ v, f = .wal v ∧ w.same v = true) ∧
     (∃ x', s'.insts[i]? = some x' ∧ ∀ c, c ∈ x'.ckpts ↔ c ∈ x.ckpts ∧ keeps ids c = true) := by
   obtain ⟨hf, hi, _⟩ := retain_effect hx h
   refine ⟨?_, _, hi, fun c => mem_keptOf⟩
@@ -114,14 +120,60 @@ theorem wal_gc (s s' : State) (i : Nat) (ids : List Nat) (x : Inst) (hx : s.inst
   constructor
   · rintro ⟨h1, h2⟩
     refine ⟨h1, ?_⟩
-    rintro ⟨c, hc, hid, w, hw, rfl⟩
-    exact h2 w (mem_walsOf.mpr ⟨c, mem_droppedOf.mpr ⟨hc, hid⟩, hw⟩) rfl
+    rintro ⟨c, hc, hid, w, hw, v, rfl, hsm⟩
+    have := h2 w (mem_walsOf.mpr ⟨c, mem_droppedOf.mpr ⟨hc, hid⟩, hw⟩) v rfl
+    rw [hsm] at this; cases this
   · rintro ⟨h1, h2⟩
     refine ⟨h1, ?_⟩
-    intro w hw he
+    intro w hw v he
     obtain ⟨c, hc, hwc⟩ := mem_walsOf.mp hw
     have hd := mem_droppedOf.mp hc
-    exact h2 ⟨c, hd.1, hd.2, w, hwc, he⟩
+    cases hsm : w.same v with
+    | false => rfl
+    | true => exact absurd ⟨c, hd.1, hd.2, w, hwc, v, he, hsm⟩ h2
+
+/-! ## WAL numbering: a restored instance never writes over a WAL of the checkpoint it loaded -/
+
+/-- `Checkpoint.NextWALID` (`c09NextWalIsMax`): the number of the first WAL a restored instance writes is larger than
+the number of EVERY WAL handle of the loaded checkpoint, whatever the order of the handles. -/
+theorem next_wal_above_all_handles (ws : List Wal) : ∀ w ∈ ws, w.num < nextWalId ws :=
+  nextWalId_gt ws
+
+/-- Restore from any number of checkpoint handles (scale-in included), into any directory — also the directory of
+one of the writers: the new instance numbers its WALs above every WAL of the composite checkpoint, so sealing WALs at
+later checkpoints can never have the file name of a WAL the loaded checkpoint references. -/
+theorem restore_numbers_above_loaded (s s' : State) (r : KGRange) (g : Nat) (n : List KGRange) (ws : List Nat)
+    (id dir : Nat) (h : step s (.openFrom r g n ws id dir) = some s') :
+    ∃ x, s'.insts = s.insts ++ [x] ∧ x.dir = dir ∧
+      ∀ c ∈ x.ckpts, ∀ w ∈ c.wals, ∀ k, x.walNext ≤ k → (⟨x.dir, k, 0⟩ : Wal).same w = false := by
+  simp only [step] at h
+  split at h
+  · simp at h
+  · simp at h
+  · rename_i ts wl _
+    injection h with h; subst h
+    refine ⟨_, rfl, rfl, ?_⟩
+    intro c hc w hw k hk
+    have hc' : c = ⟨id, ts, wl, true⟩ := by simpa using hc
+    subst hc'
+    have := nextWalId_gt wl w hw
+    exact not_same_of_num (by
+      show k ≠ w.num
+      have hk' : nextWalId wl ≤ k := hk
+      omega)
+
+/-- Sealing a WAL at a checkpoint removes no table file and no WAL file with another name. Any number of instances. -/
+theorem sealed_wal_overwrites_only_its_name (s s' : State) (i id : Nat) (wal : Wal)
+    (h : step s (.ckpt i id wal) = some s') :
+    ∀ f ∈ s.files, (∀ v, f = .wal v → wal.same v = false) → f ∈ s'.files := by
+  simp only [step] at h
+  split at h
+  · simp at h
+  · split at h
+    · injection h with h; subst h
+      intro f hf hv
+      exact List.mem_cons_of_mem _ (mem_clobber.mpr ⟨hf, hv⟩)
+    · simp at h
 
 /-! ## what a collection can delete -/
 
@@ -233,8 +285,8 @@ theorem two_read_no_is_final (s1 s2 s3 : State) (as as' : List Act) (j : Nat) (u
 
 /-- The order matters: reading the checkpoint list first (the code before the repair) can answer "no" for a table
 the newest checkpoint references — checkpoint 2 captures `t1`, a compaction drops it, both between the two reads. -/
-def d46Before : List Act := [.openFresh ⟨0, 8⟩ 0 [], .flush 0 ⟨"t0", 0, 7⟩, .ckpt 0 1 "w0", .flush 0 ⟨"t1", 0, 7⟩]
-def d46Between : List Act := [.ckpt 0 2 "w1", .compact 0 ["t0", "t1"] [⟨"t2", 0, 7⟩]]
+def d46Before : List Act := [.openFresh ⟨0, 8⟩ 0 [] 0, .flush 0 ⟨"t0", 0, 7⟩, .ckpt 0 1 ⟨0, 0, 0⟩, .flush 0 ⟨"t1", 0, 7⟩]
+def d46Between : List Act := [.ckpt 0 2 ⟨0, 1, 0⟩, .compact 0 ["t0", "t1"] [⟨"t2", 0, 7⟩]]
 
 theorem d46_counterexample :
     ((run {} d46Before).bind fun s1 => (run s1 d46Between).bind fun s2 =>
@@ -247,18 +299,18 @@ theorem d46_counterexample :
 /-- a history inside the scope of the global theorem with two checkpoints, a compaction, a retention update that
 deletes a WAL, a snapshot and collections that delete three table files -/
 def sampleTrace : List Act :=
-  [.flush 0 ⟨"t0", 0, 3⟩, .flush 0 ⟨"t1", 2, 7⟩, .snap 0, .ckpt 0 1 "w0", .compact 0 ["t0", "t1"] [⟨"t2", 0, 7⟩],
-   .flush 0 ⟨"t3", 1, 1⟩, .compact 0 ["t3"] [], .collect 0 "t3" [], .ckpt 0 2 "w1", .jobDrop 1, .retain 0 [2],
+  [.flush 0 ⟨"t0", 0, 3⟩, .flush 0 ⟨"t1", 2, 7⟩, .snap 0, .ckpt 0 1 ⟨0, 0, 0⟩, .compact 0 ["t0", "t1"] [⟨"t2", 0, 7⟩],
+   .flush 0 ⟨"t3", 1, 1⟩, .compact 0 ["t3"] [], .collect 0 "t3" [], .ckpt 0 2 ⟨0, 1, 0⟩, .jobDrop 1, .retain 0 [2],
    .unsnap 0 0, .collect 0 "t0" [], .collect 0 "t1" [], .crash 0]
 
 example : (runIn (init1 ⟨0, 8⟩ []) sampleTrace).map (fun s => (s.files, needed s)) =
-    some ([.wal "w1", .sst "t2"], [.sst "t2", .wal "w1"]) := by decide
+    some ([.wal ⟨0, 1, 0⟩, .sst "t2"], [.sst "t2", .wal ⟨0, 1, 0⟩]) := by decide
 
 /-- the retention step of that history really deletes the WAL of the dropped checkpoint and nothing else -/
 example : (runIn (init1 ⟨0, 8⟩ []) (sampleTrace.take 10)).map (·.files) =
-      some [.wal "w1", .sst "t2", .wal "w0", .sst "t1", .sst "t0"] ∧
+      some [.wal ⟨0, 1, 0⟩, .sst "t2", .wal ⟨0, 0, 0⟩, .sst "t1", .sst "t0"] ∧
     (runIn (init1 ⟨0, 8⟩ []) (sampleTrace.take 11)).map (·.files) =
-      some [.wal "w1", .sst "t2", .sst "t1", .sst "t0"] := by decide
+      some [.wal ⟨0, 1, 0⟩, .sst "t2", .sst "t1", .sst "t0"] := by decide
 
 /-- while the snapshot is held the collector may not touch the tables it pins -/
 example : runIn (init1 ⟨0, 8⟩ []) (sampleTrace.take 11 ++ [.collect 0 "t0" []]) = none := by decide
@@ -275,7 +327,7 @@ example : decision ⟨0, 4⟩ ⟨"t", 2, 5⟩ [(⟨4, 8⟩, .no)] = .delete ∧
 /-- D25: open; write; checkpoint 1; the instance is released inside the living process (operator redeploy); the next
 collection deletes the table although checkpoint 1 is retained. -/
 def d25Trace : List Act :=
-  [.openFresh ⟨0, 8⟩ 0 [], .flush 0 ⟨"t0", 0, 7⟩, .ckpt 0 1 "w0", .release 0, .collect 0 "t0" []]
+  [.openFresh ⟨0, 8⟩ 0 [] 0, .flush 0 ⟨"t0", 0, 7⟩, .ckpt 0 1 ⟨0, 0, 0⟩, .release 0, .collect 0 "t0" []]
 
 theorem d25_counterexample : (run {} d25Trace).map missing = some [File.sst "t0"] := by decide
 
@@ -284,9 +336,9 @@ restore from it — both list the table. Y compacts it away, takes checkpoint 2,
 Y's collection deletes the table without asking Z (Y's range contains it), while Z is running with the table in its
 level list and in its retained checkpoint 2 (so the file is missing twice over). -/
 def d34Trace : List Act :=
-  [.openFresh ⟨0, 8⟩ 0 [], .flush 0 ⟨"x0", 0, 1⟩, .ckpt 0 1 "w0", .crash 0,
-   .openFrom ⟨0, 4⟩ 1 [⟨4, 8⟩] [0] 1, .openFrom ⟨4, 8⟩ 1 [⟨0, 4⟩] [0] 1,
-   .flush 1 ⟨"y0", 0, 1⟩, .compact 1 ["x0", "y0"] [⟨"y1", 0, 1⟩], .ckpt 1 2 "w1", .ckpt 2 2 "w2", .jobDrop 1,
+  [.openFresh ⟨0, 8⟩ 0 [] 0, .flush 0 ⟨"x0", 0, 1⟩, .ckpt 0 1 ⟨0, 0, 0⟩, .crash 0,
+   .openFrom ⟨0, 4⟩ 1 [⟨4, 8⟩] [0] 1 1, .openFrom ⟨4, 8⟩ 1 [⟨0, 4⟩] [0] 1 2,
+   .flush 1 ⟨"y0", 0, 1⟩, .compact 1 ["x0", "y0"] [⟨"y1", 0, 1⟩], .ckpt 1 2 ⟨1, 1, 0⟩, .ckpt 2 2 ⟨2, 1, 0⟩, .jobDrop 1,
    .retain 1 [2], .collect 1 "x0" [.needs]]
 
 theorem d34_counterexample : (run {} d34Trace).map missing = some [File.sst "x0", File.sst "x0"] := by decide
